@@ -53,6 +53,13 @@ Spec == Init /\ [][Next]_<<st, hist>>
 ViewSt == st
 \* the transcription satisfies every clause of the property layer on every explored API transition
 Refines == [][hist' # hist => LET a == hist'[Len(hist')] IN Post(Obs(st.body), a, Obs(st'.body))]_<<st, hist>>
+\* LONG strings (the typed ones cannot hold ten paragraphs): not explored (a long body multiplies every later step, and TLC's evaluation of
+\* the clauses on it is slow) but written out as one-assignment histories for the driver; Trace_TextBody judges them like all others
+Rep(x, n) == [i \in 1..(n * Len(x)) |-> x[((i - 1) % Len(x)) + 1]]
+LongStrings == {Rep(<<PLAIN, NL>>, 9) \o <<PLAIN>>}      \* ten paragraphs
+FrameOpOf(site) == CASE site \in {"frame", "nobody"} -> "SetFrame" [] site \in {"cell", "spanned"} -> "SetCell" [] OTHER -> "SetShapeText"
+LongCases == {<<[op |-> "Prior", id |-> 1, site |-> site], [op |-> FrameOpOf(site), s |-> s]>> : site \in SITES, s \in LongStrings}
+ASSUME PrintT(<<"LONG", ToJson(SetToSeq(LongCases))>>)
 \* the prior family, written out for the driver (single source: TextBody!PriorActs)
 ASSUME PrintT(<<"PRIORS", ToJson([p \in 1..5 |-> PriorActs(p)])>>)
 =============================================================================
